@@ -344,3 +344,224 @@ package vm
 //@   ensures[C03.revert_inv_sep_logs] sdbSepLogs(d)
 //@   ensures[C03.revert_inv_sep_ts] sdbSepTs(d)
 //@   panics[C03.revert_panics] iff id < 0 || id + 1 >= len(d.snapshots)
+
+// ---------------------------------------------------------------------------------------------
+// interfaces.go — EvmKeeper: ASSUMED summaries of the x/evm/keeper accessors behind the interface (prefix stores over the
+// evm KV store + codecs; x/evm/keeper/statedb.go, keeper.go, params.go), over the abstract evm state of
+// /verif/prelude/41_statedb_evm_state.spec. Every accessor reads / writes only the layer of the context it is given.
+// ---------------------------------------------------------------------------------------------
+//@ import evmtypes "github.com/EscanBE/evermint/v12/x/evm/types"
+//@ import big "math/big"
+
+//@ func (k EvmKeeper) GetParams(ctx sdk.Context) (params evmtypes.Params)
+//@   assumed
+//@   modifies nothing
+//@   ensures params.EvmDenom == evmDenomOf[layer(ctx)]
+//@   panics never
+//@ func (k EvmKeeper) GetEip155ChainId(ctx sdk.Context) evmtypes.Eip155ChainId
+//@   assumed
+//@   modifies nothing
+//@   panics never
+//@ func (k EvmKeeper) GetCodeHash(ctx sdk.Context, addr []byte) common.Hash
+//@   assumed
+//@   modifies nothing
+//@   ensures result == (evmCodeHash[layer(ctx)][bytes(addr)] != zero(type(common.Hash)) ? evmCodeHash[layer(ctx)][bytes(addr)] : (acctExists[layer(ctx)][bytes(addr)] ? emptyCodeHash() : zero(type(common.Hash))))
+//@   panics never
+//@ func (k EvmKeeper) SetCodeHash(ctx sdk.Context, addr common.Address, codeHash common.Hash)
+//@   assumed
+//@   modifies evmCodeHash[layer(ctx)]
+//@   ensures evmCodeHash[layer(ctx)] == old(evmCodeHash[layer(ctx)])[addrBytes(addr) := (isEmptyCodeHash(codeHash) ? zero(type(common.Hash)) : codeHash)]
+//@   panics never
+//@ func (k EvmKeeper) DeleteCodeHash(ctx sdk.Context, addr []byte)
+//@   assumed
+//@   modifies evmCodeHash[layer(ctx)]
+//@   ensures evmCodeHash[layer(ctx)] == old(evmCodeHash[layer(ctx)])[bytes(addr) := zero(type(common.Hash))]
+//@   panics never
+//@ func (k EvmKeeper) GetCode(ctx sdk.Context, codeHash common.Hash) []byte
+//@   assumed
+//@   modifies nothing
+//@   panics never
+//@ func (k EvmKeeper) SetCode(ctx sdk.Context, codeHash []byte, code []byte)
+//@   assumed
+//@   modifies evmCodeVer[layer(ctx)]
+//@   panics never
+//@ func (k EvmKeeper) GetState(ctx sdk.Context, addr common.Address, key common.Hash) common.Hash
+//@   assumed
+//@   modifies nothing
+//@   ensures result == evmStorage[layer(ctx)][addr][key]
+//@   panics never
+//@ func (k EvmKeeper) SetState(ctx sdk.Context, addr common.Address, key common.Hash, value []byte)
+//@   assumed
+//@   modifies evmStorage[layer(ctx)]
+//@   ensures evmStorage[layer(ctx)] == old(evmStorage[layer(ctx)])[addr := old(evmStorage[layer(ctx)][addr])[key := (len(value) == 0 ? zero(type(common.Hash)) : hashOfBytes(bytes(value)))]]
+//@   panics never
+// IsEmptyAccount (keeper.go): empty code hash, no balance in any denomination, sequence 0 (or no account), no storage entry
+//@ func (k EvmKeeper) IsEmptyAccount(ctx sdk.Context, addr common.Address) bool
+//@   assumed
+//@   modifies nothing
+//@   ensures result == (evmCodeHash[layer(ctx)][addrBytes(addr)] == zero(type(common.Hash)) && (forall den string :: bankBal[layer(ctx)][addrBytes(addr)][den] == 0) && acctSeq[layer(ctx)][addrBytes(addr)] == 0 && (forall k common.Hash :: evmStorage[layer(ctx)][addr][k] == zero(type(common.Hash))))
+//@   panics never
+// ForEachStorage calls cb on the storage entries of addr. Higher-order: the engine cannot expand the callback, so this
+// summary only bounds the effect for the callbacks used in THIS package (they call back into the same keeper with the
+// same context, i.e. they write the same layer only); what the iteration achieves is not expressed (see DestroyAccount).
+//@ func (k EvmKeeper) ForEachStorage(ctx sdk.Context, addr common.Address, cb func(key common.Hash, value common.Hash) bool)
+//@   assumed
+//@   modifies evmStorage[layer(ctx)]
+//@   ensures forall a common.Address :: a != addr ==> evmStorage[layer(ctx)][a] == old(evmStorage[layer(ctx)][a])
+//@   panics never
+
+// ---------------------------------------------------------------------------------------------
+// state_db.go — coin operations (C04: every EVM credit is a bank mint, every debit a bank burn; C15: burns respect locks)
+// ---------------------------------------------------------------------------------------------
+
+// mintCoins: MintCoins(evm module) then SendCoinsFromModuleToAccount: the supply and the account's balance grow by exactly
+// `coins`, the module account ends where it started; any bank error aborts (panic).
+//@ func (d cStateDb) mintCoins(accAddr sdk.AccAddress, coins sdk.Coins)
+//@   requires d.bankKeeper != nil
+//@   modifies bankBal[layer(d.currentCtx)], bankSupply[layer(d.currentCtx)], authVersion[layer(d.currentCtx)], evlog[payload(d.currentCtx.EventManager())]
+//@   ensures[C04.mint_balances] forall a bytes, den string :: bankBal[layer(d.currentCtx)][a][den] == old(bankBal[layer(d.currentCtx)][a][den]) + (a == bytes(accAddr) ? coinsAmt(content(coins), den) : 0)
+//@   ensures[C04.mint_supply] forall den string :: bankSupply[layer(d.currentCtx)][den] == old(bankSupply[layer(d.currentCtx)][den]) + coinsAmt(content(coins), den)
+//@   panics any
+
+// burnCoins: SendCoinsFromAccountToModule then BurnCoins: supply and balance shrink by exactly `coins`; a normal return
+// means every amount was spendable (not vesting-locked at the block time of the context).
+//@ func (d cStateDb) burnCoins(accAddr sdk.AccAddress, coins sdk.Coins)
+//@   requires d.bankKeeper != nil
+//@   modifies bankBal[layer(d.currentCtx)], bankSupply[layer(d.currentCtx)], authVersion[layer(d.currentCtx)], evlog[payload(d.currentCtx.EventManager())]
+//@   ensures[C04.burn_balances] forall a bytes, den string :: bankBal[layer(d.currentCtx)][a][den] == old(bankBal[layer(d.currentCtx)][a][den]) - (a == bytes(accAddr) ? coinsAmt(content(coins), den) : 0)
+//@   ensures[C04.burn_supply] forall den string :: bankSupply[layer(d.currentCtx)][den] == old(bankSupply[layer(d.currentCtx)][den]) - coinsAmt(content(coins), den)
+//@   ensures[C15.burn_only_spendable] forall den string :: coinsAmt(content(coins), den) <= old(bankBal[layer(d.currentCtx)][bytes(accAddr)][den]) - bankLocked(layer(d.currentCtx), hdr(d.currentCtx), bytes(accAddr), den)
+//@   panics any
+
+//@ func (d *cStateDb) AddBalance(address common.Address, b *big.Int)
+//@   requires d != nil && d.touched != nil && d.bankKeeper != nil && b != nil
+//@   modifies contents(d.touched), bankBal[layer(d.currentCtx)], bankSupply[layer(d.currentCtx)], authVersion[layer(d.currentCtx)], evlog[payload(d.currentCtx.EventManager())]
+//@   ensures[C03.mut_touched] forall a common.Address :: (a in d.touched) == (a == address || old(a in d.touched))
+//@   ensures[C04.add_balance] forall a bytes, den string :: bankBal[layer(d.currentCtx)][a][den] == old(bankBal[layer(d.currentCtx)][a][den]) + ((a == addrBytes(address) && den == d.evmDenom) ? bigval[b] : 0)
+//@   ensures[C04.add_supply] forall den string :: bankSupply[layer(d.currentCtx)][den] == old(bankSupply[layer(d.currentCtx)][den]) + (den == d.evmDenom ? bigval[b] : 0)
+//@   panics any
+
+//@ func (d *cStateDb) SubBalance(address common.Address, b *big.Int)
+//@   requires d != nil && d.touched != nil && d.bankKeeper != nil && b != nil
+//@   modifies contents(d.touched), bankBal[layer(d.currentCtx)], bankSupply[layer(d.currentCtx)], authVersion[layer(d.currentCtx)], evlog[payload(d.currentCtx.EventManager())]
+//@   ensures[C03.mut_touched] forall a common.Address :: (a in d.touched) == (a == address || old(a in d.touched))
+//@   ensures[C04.sub_balance] forall a bytes, den string :: bankBal[layer(d.currentCtx)][a][den] == old(bankBal[layer(d.currentCtx)][a][den]) - ((a == addrBytes(address) && den == d.evmDenom) ? bigval[b] : 0)
+//@   ensures[C04.sub_supply] forall den string :: bankSupply[layer(d.currentCtx)][den] == old(bankSupply[layer(d.currentCtx)][den]) - (den == d.evmDenom ? bigval[b] : 0)
+//@   ensures[C15.sub_only_spendable] bigval[b] <= old(bankBal[layer(d.currentCtx)][addrBytes(address)][d.evmDenom]) - bankLocked(layer(d.currentCtx), hdr(d.currentCtx), addrBytes(address), d.evmDenom)
+//@   panics any
+
+// ---------------------------------------------------------------------------------------------
+// state_db.go — the other mutators: each one writes only LIVE components (never a snapshot record, never the snapshot
+// stack) and only the innermost store layer  (C03: "mutators only touch live components")
+// ---------------------------------------------------------------------------------------------
+
+//@ func (d *cStateDb) createAccountIfNotExists(address common.Address)
+//@   requires d != nil
+//@   modifies acctExists[layer(d.currentCtx)], acctSeq[layer(d.currentCtx)], authVersion[layer(d.currentCtx)]
+//@   ensures[C03.mut_create_if_missing] acctExists[layer(d.currentCtx)] == old(acctExists[layer(d.currentCtx)])[addrBytes(address) := true] && acctSeq[layer(d.currentCtx)] == old(acctSeq[layer(d.currentCtx)])
+//@   panics never
+
+//@ func (d *cStateDb) SetNonce(address common.Address, n uint64)
+//@   requires d != nil && d.touched != nil
+//@   modifies contents(d.touched), acctExists[layer(d.currentCtx)], acctSeq[layer(d.currentCtx)], authVersion[layer(d.currentCtx)], accObjSeq
+//@   ensures[C03.mut_touched] forall a common.Address :: (a in d.touched) == (a == address || old(a in d.touched))
+//@   ensures[C03.mut_set_nonce,C06.set_nonce] acctSeq[layer(d.currentCtx)] == old(acctSeq[layer(d.currentCtx)])[addrBytes(address) := n] && acctExists[layer(d.currentCtx)] == old(acctExists[layer(d.currentCtx)])[addrBytes(address) := true]
+//@   panics never
+
+//@ func (d *cStateDb) SetCode(address common.Address, code []byte)
+//@   requires d != nil && d.touched != nil && d.evmKeeper != nil
+//@   modifies contents(d.touched), acctExists[layer(d.currentCtx)], acctSeq[layer(d.currentCtx)], authVersion[layer(d.currentCtx)], evmCodeHash[layer(d.currentCtx)], evmCodeVer[layer(d.currentCtx)]
+//@   ensures[C03.mut_touched] forall a common.Address :: (a in d.touched) == (a == address || old(a in d.touched))
+//@   panics any
+
+//@ func (d *cStateDb) SetState(address common.Address, key common.Hash, value common.Hash)
+//@   requires d != nil && d.touched != nil && d.evmKeeper != nil
+//@   modifies contents(d.touched), acctExists[layer(d.currentCtx)], acctSeq[layer(d.currentCtx)], authVersion[layer(d.currentCtx)], evmStorage[layer(d.currentCtx)]
+//@   ensures[C03.mut_touched] forall a common.Address :: (a in d.touched) == (a == address || old(a in d.touched))
+//@   ensures[C03.mut_set_state] forall a common.Address :: a != address ==> evmStorage[layer(d.currentCtx)][a] == old(evmStorage[layer(d.currentCtx)][a])
+//@   panics any
+
+//@ func (d *cStateDb) GetState(address common.Address, hash common.Hash) common.Hash
+//@   requires d != nil && d.evmKeeper != nil
+//@   modifies nothing
+//@   ensures[C03.get_state] result == evmStorage[layer(d.currentCtx)][address][hash]
+//@   panics never
+
+//@ func (d *cStateDb) AddRefund(gas uint64)
+//@   requires d != nil
+//@   modifies d.refund
+//@   ensures[C03.mut_add_refund] d.refund == old(d.refund) + gas
+//@   panics[C03.add_refund_overflow] iff d.refund + gas >= pow2(64)
+
+//@ func (d *cStateDb) SubRefund(gas uint64)
+//@   requires d != nil
+//@   modifies d.refund
+//@   ensures[C03.mut_sub_refund] d.refund == old(d.refund) - gas
+//@   panics[C03.sub_refund_underflow] iff gas > d.refund
+
+//@ func (d *cStateDb) GetRefund() uint64
+//@   requires d != nil
+//@   modifies nothing
+//@   ensures[C03.get_refund] result == d.refund
+//@   panics never
+
+//@ func (d *cStateDb) GetTransientState(addr common.Address, key common.Hash) common.Hash
+//@   requires d != nil && typeof(d.transientStorage) == type(transientStorage)
+//@   modifies nothing
+//@   ensures[C03.get_transient] result == unbox(d.transientStorage, type(transientStorage))[addr][key]
+//@   panics never
+
+//@ func (d *cStateDb) SetTransientState(addr common.Address, key common.Hash, value common.Hash)
+//@   requires sdbInv(d)
+//@   modifies contents(unbox(d.transientStorage, type(transientStorage))), contents(unbox(d.transientStorage, type(transientStorage))[addr])
+//@   ensures[C03.mut_set_transient] forall a common.Address, k common.Hash :: unbox(d.transientStorage, type(transientStorage))[a][k] == ((a == addr && k == key) ? value : old(unbox(d.transientStorage, type(transientStorage))[a][k]))
+//@   ensures[C03.mut_set_transient_live] sdbLive(d)
+//@   ensures[C03.mut_set_transient_sep] sdbSepTs(d)
+//@   panics never
+
+//@ func (d *cStateDb) AddLog(log *ethtypes.Log)
+//@   requires sdbInv(d)
+//@   modifies d.logs, contents(d.logs)
+//@   ensures[C03.mut_add_log] len(d.logs) == old(len(d.logs)) + 1 && d.logs[old(len(d.logs))] == log && (forall i int :: (0 <= i && i < old(len(d.logs))) ==> d.logs[i] == old(d.logs[i]))
+//@   ensures[C03.mut_add_log_sep] sdbSepLogs(d)
+//@   panics never
+
+//@ func (d *cStateDb) AddressInAccessList(addr common.Address) bool
+//@   requires d != nil && d.accessList != nil
+//@   modifies nothing
+//@   ensures[C03.al_address_in] result == (addr in d.accessList.elements)
+//@   panics never
+
+//@ func (d *cStateDb) SlotInAccessList(addr common.Address, slot common.Hash) (addressOk bool, slotOk bool)
+//@   requires d != nil && d.accessList != nil
+//@   modifies nothing
+//@   ensures[C03.al_slot_in] addressOk == (addr in d.accessList.elements) && slotOk == (slot in d.accessList.elements[addr])
+//@   panics never
+
+//@ func (d *cStateDb) AddAddressToAccessList(addr common.Address)
+//@   requires sdbInv(d)
+//@   modifies contents(d.accessList.elements)
+//@   ensures[C03.mut_al_add_address] (forall a common.Address :: (a in d.accessList.elements) == (a == addr || old(a in d.accessList.elements))) && (forall a common.Address :: d.accessList.elements[a] == old(d.accessList.elements[a]))
+//@   ensures[C03.mut_al_add_address_live] sdbLive(d)
+//@   ensures[C03.mut_al_add_address_sep] sdbSepAl(d)
+//@   panics never
+
+//@ func (d *cStateDb) AddSlotToAccessList(addr common.Address, slot common.Hash)
+//@   requires sdbInv(d)
+//@   modifies contents(d.accessList.elements), contents(d.accessList.elements[addr])
+//@   ensures[C03.mut_al_add_slot] (forall a common.Address :: (a in d.accessList.elements) == (a == addr || old(a in d.accessList.elements))) && (forall a common.Address, s common.Hash :: (s in d.accessList.elements[a]) == ((a == addr && s == slot) || old(s in d.accessList.elements[a])))
+//@   ensures[C03.mut_al_add_slot_live] sdbLive(d)
+//@   ensures[C03.mut_al_add_slot_sep] sdbSepAl(d)
+//@   panics never
+
+//@ func (d *cStateDb) HasSuicided(address common.Address) bool
+//@   requires d != nil
+//@   modifies nothing
+//@   ensures[C03.has_suicided] result == (address in d.selfDestructed)
+//@   panics never
+
+//@ func (d *cStateDb) GetCurrentContext() sdk.Context
+//@   requires d != nil
+//@   modifies nothing
+//@   ensures[C03.current_ctx] result == d.currentCtx
+//@   panics never
